@@ -42,6 +42,14 @@ fn short_loc(msg: &str) -> String {
 
 /// run `f`; a panic is the refutation event
 pub fn guarded<R>(ctx: &mut Ctx, what: &str, input: &[u8], f: impl FnOnce() -> R) -> Option<R> {
+    // under an interpreter (FV_TINY) every process works for a fixed wall-clock budget and then only counts what it skips;
+    // the budget never decides a verdict, only how much is observed
+    static START: std::sync::OnceLock<(std::time::Instant, Option<u64>)> = std::sync::OnceLock::new();
+    let (t0, budget) = START.get_or_init(|| (std::time::Instant::now(), std::env::var("FV_TINY").ok().map(|v| v.parse().ok().filter(|x| *x > 1).unwrap_or(900))));
+    if budget.is_some_and(|b| t0.elapsed().as_secs() > b) {
+        ctx.count("skipped_after_interpreter_budget");
+        return None;
+    }
     ctx.wal(what, &input[..input.len().min(1 << 16)]);
     match catch_unwind(AssertUnwindSafe(f)) {
         Ok(r) => Some(r),
@@ -52,6 +60,11 @@ pub fn guarded<R>(ctx: &mut Ctx, what: &str, input: &[u8], f: impl FnOnce() -> R
             None
         }
     }
+}
+
+/// FV_TINY: running under an interpreter (Miri); the shapes that cost tens of thousands of group operations are left out
+fn tiny() -> bool {
+    std::env::var("FV_TINY").is_ok()
 }
 
 pub fn run<C: Suite>(ctx: &mut Ctx) {
@@ -265,7 +278,7 @@ fn hostile_packages<C: Suite>(ctx: &mut Ctx, w: &World<C>, p: &mut Pick) -> Vec<
     m.remove(&me);
     out.push(("own-missing".into(), SigningPackage::new(m, &w.msg)));
     let mut m = a.comms.clone();
-    for id in big_ids::<C>(if ctx.quick() { 150 } else { 1200 }) {
+    for id in big_ids::<C>(if tiny() { 20 } else if ctx.quick() { 150 } else { 1200 }) {
         m.insert(id, a.comms[&me]);
     }
     out.push(("oversized-duplicated-values".into(), SigningPackage::new(m, &w.msg)));
@@ -274,6 +287,19 @@ fn hostile_packages<C: Suite>(ctx: &mut Ctx, w: &World<C>, p: &mut Pick) -> Vec<
         m.insert(*id, a.comms[&me]);
     }
     out.push(("all-commitments-equal".into(), SigningPackage::new(m, &w.msg)));
+    // counts at the u16 boundary (the library converts several counts to u16)
+    let fastc = matches!(C::NAME, "ed25519" | "ristretto255" | "secp256k1" | "secp256k1-tr");
+    // (quick: only the cheaply refused maps — DKG packages, share maps, helper lists — are taken to the boundary;
+    //  signing packages of that size cost seconds per call and run in the thorough tier, fast suites first)
+    if !ctx.quick() && (fastc || C::NAME == "p256") && !tiny() {
+        for total in [65_535usize, 65_536] {
+            let mut m = a.comms.clone();
+            for id in big_ids::<C>(total - m.len()) {
+                m.insert(id, a.comms[&me]);
+            }
+            out.push((format!("count-{total}"), SigningPackage::new(m, &w.msg)));
+        }
+    }
     out.push(("other-group-session".into(), w.sess_other.pkg.clone()));
     let mut m = a.comms.clone();
     m.insert(w.outsider, w.sess_other.comms[&me]);
@@ -354,6 +380,13 @@ fn hostile_share_maps<C: Suite>(w: &World<C>) -> Vec<(String, IdMap<C, Signature
     }
     m.insert(w.outsider, a.shares[&a.signers[0]]);
     out.push(("same-count-other-identifiers".into(), m));
+    for total in if tiny() { vec![] } else { vec![65_535usize, 65_536] } {
+        let mut m = a.shares.clone();
+        for id in big_ids::<C>(total - m.len()) {
+            m.insert(id, a.shares[&a.signers[0]]);
+        }
+        out.push((format!("count-{total}"), m));
+    }
     out
 }
 
@@ -379,7 +412,7 @@ fn hostile_commitments<C: Suite>(ctx: &Ctx, base: &VerifiableSecretSharingCommit
     }
     // lengths that wrap a u16 count: to 0, to 1, to exactly t (passes every length comparison done in u16), and 70000
     let slow = C::NAME == "ed448" || C::NAME == "p256";
-    if !(ctx.quick() && slow) {
+    if !(ctx.quick() && slow) && !tiny() {
         let mut wrap_t = els.clone();
         while wrap_t.len() < 65_536 + t {
             wrap_t.push(els[wrap_t.len() % t]);
@@ -421,6 +454,9 @@ fn protocol<C: Suite>(ctx: &mut Ctx, entry: &str) {
                         if ctx.quick() && pn != "honest" && kn != "honest" && sn != "honest" {
                             continue;
                         }
+                        if (pn.starts_with("count-") && !(kn == "honest" && (sn == "honest" || sn.starts_with("count-")))) || (sn.starts_with("count-") && !(kn == "honest" && (pn == "honest" || pn.starts_with("count-")))) {
+                            continue;
+                        }
                         for (mode, mn) in modes() {
                             let label = format!("{pn}|{kn}|{sn}|{mn}");
                             guarded(ctx, "aggregate", label.as_bytes(), || frost_core::aggregate_custom(pkg, sh, pkp, mode).is_ok());
@@ -438,6 +474,12 @@ fn protocol<C: Suite>(ctx: &mut Ctx, entry: &str) {
             let vks = [vk, *w.other.pkp.verifying_key()];
             let shares = [w.sess.shares[&me], w.sess_other.shares[&me], SignatureShare::<C>::deserialize(&sc_bytes::<C>(&zero::<C>())).unwrap()];
             for (pn, pkg) in &pkgs {
+                if pn.starts_with("count-") {
+                    guarded(ctx, "verify_signature_share", pn.as_bytes(), || frost_core::verify_signature_share(me, &vss[0], &shares[0], pkg, &vk).is_ok());
+                    calls += 1;
+                    ctx.class(format!("verify_signature_share/{pn}"));
+                    continue;
+                }
                 for id in &ids {
                     for vs in &vss {
                         for v in &vks {
@@ -498,6 +540,13 @@ fn protocol<C: Suite>(ctx: &mut Ctx, entry: &str) {
                 m.insert(id, base.clone());
             }
             r1maps.push(("oversized".into(), m));
+            for total in if tiny() { vec![] } else { vec![65_534usize, 65_535, 65_536] } {
+                let mut m = r1.clone();
+                for id in big_ids::<C>(total - m.len()) {
+                    m.insert(id, base.clone());
+                }
+                r1maps.push((format!("count-{total}"), m));
+            }
             let mut huge_maps: Vec<String> = vec![];
             for (cn, comm, huge) in hostile_commitments::<C>(ctx, base.commitment()) {
                 if huge && entry == "refresh_dkg" {
@@ -537,6 +586,13 @@ fn protocol<C: Suite>(ctx: &mut Ctx, entry: &str) {
                 m.insert(id, r2[&sender].clone());
             }
             r2maps.push(("oversized".into(), m));
+            for total in if tiny() { vec![] } else { vec![65_535usize, 65_536] } {
+                let mut m = r2.clone();
+                for id in big_ids::<C>(total - m.len()) {
+                    m.insert(id, r2[&sender].clone());
+                }
+                r2maps.push((format!("count-{total}"), m));
+            }
             if entry == "dkg_part2" {
                 for (n1, m1) in &r1maps {
                     guarded(ctx, "dkg::part2", n1.as_bytes(), || C::api_dkg_part2(sec1.clone(), m1).is_ok());
@@ -547,6 +603,9 @@ fn protocol<C: Suite>(ctx: &mut Ctx, entry: &str) {
                 for (n1, m1) in &r1maps {
                     for (n2, m2) in &r2maps {
                         if huge_maps.contains(n1) && n2 != "honest" {
+                            continue;
+                        }
+                        if (n1.starts_with("count-") || n2.starts_with("count-")) && !(n1 == "honest" || n2 == "honest" || n1 == n2) {
                             continue;
                         }
                         let label = format!("{n1}|{n2}");
@@ -569,6 +628,7 @@ fn protocol<C: Suite>(ctx: &mut Ctx, entry: &str) {
                             secs.insert(*id, s);
                         }
                     }
+                    let pkps_all = hostile_pkps::<C>(ctx, &w);
                     let mut maps = r1maps.clone();
                     maps.push(("honest-refresh".into(), honest_r1.clone()));
                     for (n1, m1) in &maps {
@@ -579,7 +639,10 @@ fn protocol<C: Suite>(ctx: &mut Ctx, entry: &str) {
                             _ => continue,
                         };
                         for (n2, m2) in &r2maps {
-                            for (kn, pkp) in hostile_pkps::<C>(ctx, &w).iter().take(if ctx.quick() { 5 } else { 20 }) {
+                            if (n1.starts_with("count-") || n2.starts_with("count-")) && !(n1.starts_with("honest") || n2 == "honest" || n1 == n2) {
+                                continue;
+                            }
+                            for (kn, pkp) in pkps_all.iter().take(if n1.starts_with("count-") || n2.starts_with("count-") { 1 } else if ctx.quick() { 5 } else { 20 }) {
                                 let label = format!("{n1}|{n2}|{kn}");
                                 guarded(ctx, "refresh_dkg_shares", label.as_bytes(), || C::api_refresh_dkg_shares(&sec2r, m1, m2, pkp.clone(), kp.clone()).is_ok());
                                 calls += 1;
@@ -600,6 +663,8 @@ fn protocol<C: Suite>(ctx: &mut Ctx, entry: &str) {
                 ("without-caller", ids[1..].to_vec()),
                 ("with-outsider", [ids.to_vec(), vec![w.outsider]].concat()),
                 ("thousand", [ids.to_vec(), big_ids::<C>(1000)].concat()),
+                ("count-65535", [ids.to_vec(), big_ids::<C>(if tiny() { 0 } else { 65_535 - ids.len() })].concat()),
+                ("count-65536", [ids.to_vec(), big_ids::<C>(if tiny() { 0 } else { 65_536 - ids.len() })].concat()),
             ];
             let mut rng = ctx.rng("repair");
             for (ln, l) in &lists {
@@ -719,6 +784,9 @@ fn protocol<C: Suite>(ctx: &mut Ctx, entry: &str) {
             let seeds: Vec<Vec<u8>> = vec![vec![], vec![0; 32], p.bytes(C::SCALAR_LEN), p.bytes(if ctx.quick() { 10_000 } else { 1 << 20 })];
             let mut rng = ctx.rng("rerand");
             for (pn, pkg) in &pkgs {
+                if pn.starts_with("count-") {
+                    continue;
+                }
                 for sd in &seeds {
                     guarded(ctx, "sign_with_randomizer_seed", pn.as_bytes(), || frost_rerandomized::sign_with_randomizer_seed(pkg, &nonces, &kp, sd).is_ok());
                     guarded(ctx, "RandomizedParams::regenerate", pn.as_bytes(), || RandomizedParams::<C>::regenerate_from_seed_and_commitments(&vk, sd, pkg.signing_commitments()).is_ok());
@@ -728,13 +796,18 @@ fn protocol<C: Suite>(ctx: &mut Ctx, entry: &str) {
                 ctx.class(format!("rerandomized/{pn}"));
             }
             let params = [RandomizedParams::<C>::from_randomizer(&vk, Randomizer::<C>::from_scalar(zero::<C>())), RandomizedParams::<C>::from_randomizer(&vk, Randomizer::<C>::from_scalar(neg::<C>(one::<C>())))];
+            let shs = hostile_share_maps::<C>(&w);
+            let pkps = hostile_pkps::<C>(ctx, &w);
             for (pn, pkg) in &pkgs {
-                for (kn, pkp) in hostile_pkps::<C>(ctx, &w) {
-                    for (sn, sh) in hostile_share_maps::<C>(&w).iter().take(if ctx.quick() { 3 } else { 8 }) {
+                if pn.starts_with("count-") {
+                    continue;
+                }
+                for (kn, pkp) in &pkps {
+                    for (sn, sh) in shs.iter().take(if ctx.quick() { 3 } else { 8 }) {
                         for pr in &params {
                             for (mode, mn) in modes() {
                                 let label = format!("{pn}|{kn}|{sn}|{mn}");
-                                guarded(ctx, "rerandomized::aggregate_custom", label.as_bytes(), || frost_rerandomized::aggregate_custom(pkg, sh, &pkp, mode, pr).is_ok());
+                                guarded(ctx, "rerandomized::aggregate_custom", label.as_bytes(), || frost_rerandomized::aggregate_custom(pkg, sh, pkp, mode, pr).is_ok());
                                 calls += 1;
                             }
                         }
@@ -771,6 +844,9 @@ fn taproot<C: Suite>(ctx: &mut Ctx, _w: &World<C>, p: &mut Pick) -> u64 {
     for r in &roots {
         let rr = r.as_deref();
         for (pn, pkg) in &pkgs {
+            if pn.starts_with("count-") {
+                continue;
+            }
             guarded(ctx, "sign_with_tweak", pn.as_bytes(), || tr::round2::sign_with_tweak(pkg, &nonces, &kp, rr).is_ok());
             calls += 1;
             for (kn, pkp) in &pkps {
